@@ -480,13 +480,20 @@ func (cc *c28Case) dump() string {
 	return s
 }
 
+// c28CaseNo counts cases; pools are emptied before every fourth one (a forced
+// collection stops the world, which is expensive on a loaded machine; in between,
+// the baseline simply starts from whatever the previous case left in the pools,
+// which is itself one more "what was executed earlier" variation).
+var c28CaseNo int
+
 func c28Baseline(rt *rapid.T, freshPools bool) *c28Case {
 	cc := &c28Case{}
 	n := 4 + ep.Uniform(rt, "npairs", 5)
 	for i := 0; i < n; i++ {
 		cc.pairs = append(cc.pairs, c28DrawPair(rt))
 	}
-	if freshPools {
+	c28CaseNo++
+	if freshPools && c28CaseNo%4 == 1 {
 		// two collections empty every sync.Pool (primary and victim cache): the first
 		// baseline run starts from newly allocated arena and memory objects, and no arena
 		// is released during the baseline runs (memory objects of finished frames are)
